@@ -204,7 +204,14 @@ let () =
       let s_eq =
         if rel = "P" then (if fa = None then "*" else "true")
         else match fa, fb with
-          | Some (_, x), Some (_, y) -> if scr = [] then string_of_bool (FsModel.list_eqb x y) else "*"
+          | Some (_, x), Some (_, y) ->
+            (* without faults: true exactly when the bytes are identical; with read/close errors or short reads the
+               answer may be false, but never true for different bytes (a read that returns 0 before the end of the
+               file - S0 - is a truncated file, not constrained) *)
+            let eq = FsModel.list_eqb x y in
+            if scr = [] then string_of_bool eq
+            else if (not eq) && not (List.exists (function Short n -> int_of_nat n = 0 | _ -> false) scr) then "false"
+            else "*"
           | _, _ -> "false" in
       Printf.printf "S eq= %s fds= 0 leak= 0\n" s_eq
     | ["T"; k; size] ->
